@@ -176,8 +176,10 @@ def run_case(case, ctx):
             if rule in ("mean", "otsu") and any(np.any(np.abs(data - T) <= 1e-9 * max(rng, 1e-300)) for T in Ts):
                 ctx.skip("knife-edge:cell-on-threshold")
                 continue
+            image = field.data.tobytes()
             em = locate_droplets(field, threshold=arg)
             ctx.op()
+            ctx.check("C18.image-unmodified", field.data.tobytes() == image, None, tags2)
             got = key(em)
             uniq = {}
             for T in Ts:  # tied thresholds that give the same binary image need one reference run only
